@@ -10,7 +10,7 @@
     [v_prop]: the three observations are equal (the property itself: same
     decision, same view, same hand-over);
     guards 1..9 = C13-F1..F9, evaluated on the queries the pipeline asks. *)
-From HV Require Export Base.Prelude Base.GoUrl C09.Model C13.Model C13.Proofs.
+From HV Require Export Base.Prelude Base.GoUrl C13.Http C13.Model C13.Proofs.
 Open Scope string_scope.
 
 Record eobs := {
@@ -18,12 +18,14 @@ Record eobs := {
   eo_rule : string;
   eo_view : option (list value);       (* answers to the probes *)
   eo_ho : option handover;
-  eo_ok : bool                         (* the driver could read the observation *)
+  eo_ok : bool;                        (* the driver could read the observation *)
+  eo_loc : string                      (* Location of a denial (redirect error handler), "" otherwise *)
 }.
 
 Record krule := {
   kr_id : string; kr_slashes : slashes; kr_authz : option cond; kr_steps : list step;
-  kr_probes : list query; kr_caps : list (string * string)
+  kr_probes : list query; kr_caps : list (string * string);
+  kr_redirect : option (string * option query)   (* on_error: redirect error handler, `to` = prefix ++ echo *)
 }.
 
 Record case := {
@@ -65,13 +67,13 @@ Definition same_class (x y : Z) : bool := Bool.eqb (Z.eqb x 0) (Z.eqb y 0).
 Definition eobs_corr (a b : eobs) : bool :=
   same_class (eo_status a) (eo_status b) && String.eqb (eo_rule a) (eo_rule b) &&
   option_eqb (list_eqb value_eqb) (eo_view a) (eo_view b) &&
-  option_eqb handover_eqb (eo_ho a) (eo_ho b) && Bool.eqb (eo_ok a) (eo_ok b).
+  option_eqb handover_eqb (eo_ho a) (eo_ho b) && Bool.eqb (eo_ok a) (eo_ok b) && String.eqb (eo_loc a) (eo_loc b).
 
 (** observation vs observation (the property): the entry points answer alike, status included *)
 Definition eobs_eqb (a b : eobs) : bool :=
   Z.eqb (eo_status a) (eo_status b) && String.eqb (eo_rule a) (eo_rule b) &&
   option_eqb (list_eqb value_eqb) (eo_view a) (eo_view b) &&
-  option_eqb handover_eqb (eo_ho a) (eo_ho b) && Bool.eqb (eo_ok a) (eo_ok b).
+  option_eqb handover_eqb (eo_ho a) (eo_ho b) && Bool.eqb (eo_ok a) (eo_ok b) && String.eqb (eo_loc a) (eo_loc b).
 
 Definition status_of (e : option errkind) : Z :=
   match e with
@@ -81,7 +83,10 @@ Definition status_of (e : option errkind) : Z :=
   | Some EArgument => 400
   | Some ENoRule => 404
   | Some EInternal => 500
+  | Some (ERedirect _) => 302
   end%Z.
+
+Definition loc_of (e : option errkind) : string := match e with Some (ERedirect to) => to | _ => "" end.
 
 (** the oracles of the case *)
 Definition decode_of (c : case) : string -> string -> value :=
@@ -93,7 +98,8 @@ Definition decode_of (c : case) : string -> string -> value :=
     else VJson "?unasked-content-type".
 
 Definition rule_of (kr : krule) : rule :=
-  {| r_id := kr_id kr; r_slashes := kr_slashes kr; r_prog := pipeline_prog (kr_authz kr) (kr_steps kr) |}.
+  {| r_id := kr_id kr; r_slashes := kr_slashes kr; r_prog := pipeline_prog (kr_authz kr) (kr_steps kr);
+     r_on_error := option_map (fun pe => redirect_prog (fst pe) (snd pe)) (kr_redirect kr) |}.
 
 Definition find_of (c : case) : lview -> option (rule * list (string * string)) :=
   fun lv => match k_rule c with
@@ -111,7 +117,7 @@ Definition expected (c : case) (caches : bool) (build : rview) (a : accessors) (
                 | None, inr (_, v) => Some (map (answer a v) (probes_of c))
                 | _, _ => None
                 end;
-     eo_ho := s_handover s; eo_ok := true |}.
+     eo_ho := s_handover s; eo_ok := true; eo_loc := loc_of (s_err s) |}.
 
 Definition expected_dec (fx : fixes) (c : case) : eobs :=
   expected c true (build_http (k_L c)) (acc_http (decode_of c) (k_L c)) (finalize_decision (fx_F3 fx)).
@@ -129,7 +135,7 @@ Definition asked (c : case) : slashes * list query * list add :=
     let a := acc_http (decode_of c) (k_L c) in
     match mech_view (find_of c) true (build_http (k_L c)) with
     | inr (rl, v) =>
-      (kr_slashes kr, (trace (answer a v) (r_prog rl) ++ kr_probes kr)%list, snd (run_prog (answer a v) (r_prog rl)))
+      (kr_slashes kr, (trace (answer a v) (rule_prog rl) ++ kr_probes kr)%list, snd (run_prog (answer a v) (rule_prog rl)))
     | inl _ => (kr_slashes kr, [], [])
     end
   end.
@@ -178,10 +184,10 @@ Definition lrq m t h p q hs b pe pk :=
   {| l_method := m; l_tls := t; l_host := h; l_rawpath := p; l_query := q; l_hdrs := hs; l_body := b; l_peer := pe; l_pack := pk |}.
 Definition cnd q c := {| cd_q := q; cd_c := c |}.
 Definition stp i ck items := {| st_if := i; st_cookie := ck; st_items := items |}.
-Definition rul id sl az steps probes caps :=
-  {| kr_id := id; kr_slashes := sl; kr_authz := az; kr_steps := steps; kr_probes := probes; kr_caps := caps |}.
+Definition rul id sl az steps probes caps rd :=
+  {| kr_id := id; kr_slashes := sl; kr_authz := az; kr_steps := steps; kr_probes := probes; kr_caps := caps; kr_redirect := rd |}.
 Definition hov hs cs := {| ho_headers := hs; ho_cookies := cs |}.
-Definition eob s r v h ok := {| eo_status := s; eo_rule := r; eo_view := v; eo_ho := h; eo_ok := ok |}.
+Definition eob s r v h ok loc := {| eo_status := s; eo_rule := r; eo_view := v; eo_ho := h; eo_ok := ok; eo_loc := loc |}.
 Definition fxs f1 f2 f3 f4 f6 f7 f9 := {| fx_F1 := f1; fx_F2 := f2; fx_F3 := f3; fx_F4 := f4; fx_F6 := f6; fx_F7 := f7; fx_F9 := f9 |}.
 Definition cs fx L r ep ct db de d p e :=
   {| k_fx := fx; k_L := L; k_rule := r; k_escpath := ep; k_ct := ct; k_dec_body := db; k_dec_empty := de; k_dec := d; k_prx := p; k_env := e |}.
